@@ -304,7 +304,13 @@ class BzrBranch(Branch, _RelockDebugMixin):
                 self._check_history_violation(revision_id)
             self._run_pre_change_branch_tip_hooks(revno, revision_id)
             self._write_last_revision_info(revno, revision_id)
+            # Moving the tip does not change what this branch is bound to:
+            # keep handing out the same master object, which the caller may
+            # hold locked (a second object for the same master would
+            # contend with that lock).
+            master_branch = self._master_branch_cache
             self._clear_cached_state()
+            self._master_branch_cache = master_branch
             self._last_revision_info_cache = revno, revision_id
             self._run_post_change_branch_tip_hooks(old_revno, old_revid)
 
